@@ -152,7 +152,35 @@ func (g *Graph) NodeContaining(pos token.Pos) *Node {
 			}
 		}
 	}
-	return best
+	if best != nil {
+		return best
+	}
+	// rewritten bodies: a statement assembled from parts of different source ranges
+	for _, n := range g.Nodes {
+		if n.AST == nil {
+			continue
+		}
+		if _, ok := n.AST.(*ast.RangeStmt); ok {
+			continue
+		}
+		found := false
+		ast.Inspect(n.AST, func(m ast.Node) bool {
+			if m == nil || found {
+				return false
+			}
+			if _, isLit := m.(*ast.FuncLit); isLit {
+				return false
+			}
+			if m.Pos() == pos {
+				found = true
+			}
+			return !found
+		})
+		if found {
+			return n
+		}
+	}
+	return nil
 }
 
 // Returns lists the return nodes (predecessors of Exit).
